@@ -209,7 +209,7 @@ def record(ctx, binp, tag, seed, runs, ops, rounds, g=0, small=False, defrag=Tru
     for f in fails:
         if f["fail"] == "crash" and not f.get("in_allocator"):
             raise Infra("record driver crashed outside the allocator: %s\n%s" % (f["what"], f.get("stack", "")[-2000:]))
-    if defrag and not fails and summary.get("passes_2_classes_relocating", 0) < 1:
+    if defrag and not fails and (summary or {}).get("passes_2_classes_relocating", 0) < 1:
         # DefragAllImproved starts one goroutine per class over the threshold: the workload must make them overlap
         raise Infra("record %s: no defragmentation pass with two or more classes relocating records (%s)" % (tag, summary))
     return tr, fails, summary, p
@@ -372,6 +372,7 @@ def run(ctx):
     for tag, kw in recsets:
         tr, fails, summary, _ = record(ctx, binp, tag, **kw)
         ctx.log("trace set %s: %s" % (tag, summary))
+        summary = summary or {}
         ctx.cov["defrag_passes"] = ctx.cov.get("defrag_passes", 0) + summary.get("defrag_passes", 0)
         ctx.cov["defrag_passes_with_2+_classes_relocating"] = ctx.cov.get("defrag_passes_with_2+_classes_relocating", 0) + \
             summary.get("passes_2_classes_relocating", 0)
